@@ -8,6 +8,7 @@ semantics every other property refers to.  The theorem: whenever the evaluate pr
 value, it is the denotational value.
 -/
 import UflVerif.Model.EvalImpl
+import UflVerif.Sem.FI
 
 namespace UflVerif.C24
 open UflVerif Expr
